@@ -4,10 +4,11 @@ from .. import nodegen
 from ._nodecommon import *
 
 ID = "C08"
-LEAN_MODULES = ["VpnCloud.Proofs.C08", "VpnCloud.Proofs.C08Node", "VpnCloud.Proofs.C02More"]
+LEAN_MODULES = ["VpnCloud.Proofs.C08", "VpnCloud.Proofs.C08Node", "VpnCloud.Proofs.C02More", "VpnCloud.Proofs.GuardsUsed"]
 THEOREMS = ["VpnCloud.Proofs.C08." + n for n in ("node_reject_pure", "unknown_sender_ignored")] + [
             "VpnCloud.Proofs.C08Node.handleNet_no_panic", "VpnCloud.Proofs.C08Node.handleIface_no_panic", "VpnCloud.Proofs.C08Node.housekeep_no_panic", "VpnCloud.Proofs.C08Node.connect_no_panic", "VpnCloud.Proofs.C08Node.wf_reach", "VpnCloud.Proofs.C08Node.never_panics", "VpnCloud.Proofs.C08Node.never_panics'", "VpnCloud.Proofs.C08Node.own_seals_nonempty"]
 THEOREMS = THEOREMS + ["VpnCloud.Proofs.C02More." + n for n in ('rejected_no_state', 'sequence_no_state', 'sequence_no_state_reach', 'nodup_reach', 'allRejected_of_forall')]
+THEOREMS = THEOREMS + ["VpnCloud.Proofs.GuardsUsed." + n for n in ('datagramTooShort_boundary', 'keyIdInvalid_boundary')]
 RULE = ("suite node: receiver states {unknown sender, pending as initiator, pending as responder, established with lingering handshake} x datagram lengths 0..80 (all in thorough) with structured "
         "first bytes (0xff marker, key ids, message types) x random bodies; truncations, length-field corruptions and bit flips of genuine handshake / data / node-info datagrams replayed from every "
         "party incl. the wrong one; random datagrams up to 65000 bytes; attack sequences interleaved with time and traffic; each under catch_unwind; "
